@@ -23,6 +23,6 @@ CONSTANTS
   Defect_NonAtomicCapture = FALSE
   Defect_McpStickyRefs = FALSE
   Defect_McpRcLostAtSnapshot = FALSE
-VIEW View
+VIEW ViewGen
 INVARIANTS ExportThinMcp
 CHECK_DEADLOCK FALSE
